@@ -171,9 +171,13 @@ func (sc *Scheduler) Schedule(ctx context.Context, g *ExecutionGraph, done chan 
 					}
 				}()
 
+				// executed is set once the step's command has been started.
+				executed := false
+
 			ExecRepeat:
 				for setupSucceed && !sc.isCanceled() {
 					verifhook.Point("dagsched.worker.beforeExec", node)
+					executed = true
 					execErr := sc.execNode(ctx, node)
 					if execErr != nil {
 						status := node.State().Status
@@ -248,7 +252,16 @@ func (sc *Scheduler) Schedule(ctx context.Context, g *ExecutionGraph, done chan 
 					}
 				}
 				if node.State().Status == NodeStatusRunning {
-					node.setStatus(NodeStatusSuccess)
+					if setupSucceed && !executed {
+						// The run was stopped after this step had been chosen
+						// for launch but before its command was started (the
+						// stop found the node not yet marked running): the
+						// step did not run, it must not be recorded as
+						// succeeded.
+						node.setStatus(NodeStatusCancel)
+					} else {
+						node.setStatus(NodeStatusSuccess)
+					}
 				}
 				if done != nil {
 					done <- node
